@@ -9,17 +9,28 @@ Tie to the code: the REAL ParallelTempering is run with real processes and pipes
 (lib/c08lib.py, in killable subprocesses) on
   * stub chains with dyadic state whose step is a deterministic function of the
     stored point, the stored probability and the chain's own tape, and
-  * real GibbsChain / HamiltonianChain with scripted RNGs,
+  * real MetropolisChain / GibbsChain / PcaChain / HamiltonianChain with scripted RNGs,
+    on power-of-two temperature ladders with and without a T = 1 chain, with histories
+    that start with steps AND histories that start with swap() on the chains exactly
+    as their constructors left them (the constructor is part of the model:
+    Model/TemperingStart.real_chain, theorems in Properties/C08Start.v),
 with pt.rng and parallel.choice scripted, under >= 7 injected delay patterns.
 The results (returned chains, attempted_swaps, successful_swaps) must be identical
 across the patterns and equal to the Coq model's sequential reference run, which
 is evaluated inside Coq (vm_compute on coq/gen/C08/*.v) -- and which by theorem
 C08_reference_run_decides is the result of EVERY schedule of the model.
 
+The same histories are also evaluated with the pure sequential model
+(TemperingStart.pure_session / check_pure), about which C08_history_good says that
+stored = beta * L(point) holds at every exchange round of every history.
+
 Python only runs the implementation, converts floats to exact rationals, and --
-as the failing-input oracle -- recomputes the property itself from the chains'
-own stored values (exchange rule per proposed pair, disjointness, sample counts,
-worker exit).
+as the failing-input oracle -- recomputes the property itself (exchange rule per
+proposed pair with L = the posterior callable evaluated on the chain's current
+point, and -- as a second reading -- with L recovered from the chains' own stored
+values; hand-over; disjointness; sample counts; worker exit).  When the two readings
+give different exchange probabilities but the scripted draw does not separate
+them, the draw is placed between them and the configuration is run again.
 """
 from __future__ import annotations
 
@@ -46,8 +57,14 @@ THEOREMS = ["C08_pairs_disjoint", "C08_pairs_disjoint_uniform", "C08_pairs_loop_
             "C08_reference_run_decides", "C08_return_chains_pinned_refuted",
             "C08_shutdown_terminates"]
 
+# Properties/C08Start.v (constructor of the chain classes; histories that begin with
+# swap(); audited as a second module)
+START_THEOREMS = ["C08_fresh_chain_good", "C08_fresh_chain_fields", "C08_swap_first_prob",
+                  "C08_swap_first_state", "C08_untempered_start_refuted", "C08_round_decision",
+                  "C08_swap_round_good", "C08_history_good", "C08_stub_session_good"]
+
 HEADER = """From Coq Require Import List Arith ZArith QArith.
-From IT Require Import Model.Tempering.
+From IT Require Import Model.Tempering Model.TemperingStart.
 Import ListNotations.
 Open Scope Q_scope.
 """
@@ -196,14 +213,59 @@ def gen_stub_job(r, N, s_kind, dp, seed, big_cycles=False):
     return job
 
 
-def gen_real_job(r, kind, N, dp, seed):
+REAL_KINDS = ("metropolis", "gibbs", "pca", "hmc")
+
+
+def pow2_ladder(r, N, which):
+    """Temperature ladders of powers of two (so that the samplers' float arithmetic
+    on inv_temp is exact): 2^i, 4^i, 2^(i+1) (no T = 1 chain), or irregular gaps."""
+    if which == "pow2":
+        return [Fraction(2) ** i for i in range(N)]
+    if which == "pow4":
+        return [Fraction(4) ** i for i in range(N)]
+    if which == "shifted":
+        return [Fraction(2) ** (i + 1) for i in range(N)]
+    e, out = r.choice([0, 0, 1]), []                 # "gaps"
+    for _ in range(N):
+        out.append(Fraction(2) ** e)
+        e += r.choice([1, 1, 2, 3])
+    return out
+
+
+def gen_real_job(r, kind, N, dp, seed, first="steps", ladder="pow2", starts="random"):
+    """Real sampler classes.  first = "steps": the history starts with steps (advance,
+    or take_steps + swap + advance).  first = "swap": it starts with an exchange round
+    on the chains exactly as their constructors left them (shapes A/B/C below).
+    starts = "graded": the hotter a chain the better its start point, so that every
+    proposed pair of the first round has exchange probability exactly 1;
+    "graded-rev": the colder the better (probability << 1)."""
     n = r.randint(3, 7)
     s = r.choice([1, 2, 3])
     calls = [["advance", n, s], ["return"]]
-    if r.random() < 0.5:
+    if first == "swap":
+        shape = r.choice(["A", "B", "C"])
+        if shape == "A":
+            calls = [["swap"], ["return"], ["take_steps", r.randint(1, 2)], ["swap"]] + calls
+        elif shape == "B":          # two rounds before any step
+            calls = [["swap"], ["swap"], ["return"]] + calls
+        else:                       # take_steps(0) is not a step either
+            calls = [["take_steps", 0], ["swap"], ["return"], ["swap"]] + calls
+    elif r.random() < 0.5:
         calls = [["take_steps", 1], ["swap"]] + calls
     job = base_job(r, kind, N, calls, dp, seed, ladder="pow2")
+    job["temps"] = [str(t) for t in pow2_ladder(r, N, ladder)]
+    job["ladder"] = ladder
+    job["first"] = first
     dim = len(job["quad"])
+    if starts != "random":
+        # start_i = mode + rad_i * e_0 with rad_i decreasing (graded) / increasing (graded-rev) in i
+        rads = [Fraction(12 - i, 2) for i in range(N)]
+        if starts == "graded-rev":
+            rads = rads[::-1]
+        sg = r.choice([1, -1])
+        job["starts"] = [[str(Fraction(job["quad"][0][1]) + sg * rads[i])] +
+                         [job["quad"][k][1] for k in range(1, dim)] for i in range(N)]
+    job["starts_kind"] = starts
     job["widths"] = [[str(Fraction(r.choice([1, 2, 4]), 2)) for _ in range(dim)] for _ in range(N)]
     job["epsilon"] = "1/4"
     job["swap_interval"] = s
@@ -213,6 +275,7 @@ def gen_real_job(r, kind, N, dp, seed):
 
 def gen_jobs(tier):
     r = C.rng_for(PROP, "configs")
+    r2 = C.rng_for(PROP, "swap-first")
     jobs = []
     seed = 1
     reps = 1 if tier == "quick" else 3
@@ -226,8 +289,20 @@ def gen_jobs(tier):
             jobs.append(gen_stub_job(r, N, "1", dp, seed, big_cycles=True))
             seed += 1
         for kind, N, dp in (("gibbs", 2, True), ("gibbs", 3, False), ("gibbs", 5, True), ("gibbs", 4, False),
-                            ("hmc", 2, False), ("hmc", 3, True), ("hmc", 4, False)):
-            jobs.append(gen_real_job(r, kind, N, dp, seed))
+                            ("hmc", 2, False), ("hmc", 3, True), ("hmc", 4, False),
+                            ("metropolis", 3, True), ("pca", 4, False)):
+            jobs.append(gen_real_job(r, kind, N, dp, seed, ladder=r.choice(["pow2", "pow2", "pow4", "gaps"])))
+            seed += 1
+        # histories that BEGIN with an exchange round, every chain class, every ladder
+        # kind (with and without a T = 1 chain), N = 1..6
+        plan = [("metropolis", 2, "graded", "shifted"), ("gibbs", 3, "graded", "pow2"),
+                ("pca", 2, "graded", "pow4"), ("hmc", 3, "graded", "gaps"),
+                ("metropolis", 5, "random", "pow2"), ("gibbs", 6, "random", "shifted"),
+                ("pca", 4, "random", "gaps"), ("hmc", 5, "graded-rev", "shifted"),
+                ("pca", 1, "random", "shifted"), ("gibbs", 2, "graded-rev", "pow4"),
+                ("metropolis", 4, "graded", "gaps"), ("pca", 3, "graded", "shifted")]
+        for k, (kind, N, st, lad) in enumerate(plan):
+            jobs.append(gen_real_job(r2, kind, N, k % 2 == 0, seed, first="swap", ladder=lad, starts=st))
             seed += 1
     return jobs
 
@@ -273,12 +348,38 @@ def last_state(snap):
             for h in snap]
 
 
-def oracle_swaps(job, run):
-    """Evaluate C08's exchange clauses on an oracle-mode run, from the chains' own
-    stored values.  Returns a list of failure strings."""
+def true_logp(job):
+    """The untempered log-density L of a point: the posterior callable handed to the
+    chains (lib/c08lib.DelayedQuad, the same float operations, no delay), evaluated
+    on the point -- never derived from values stored by the library."""
+    import numpy as np
+    post = L.DelayedQuad([(Fraction(a), Fraction(m)) for a, m in job["quad"]], [])
+
+    def f(pt):
+        v = post(np.array([float(x) for x in pt], dtype=float))
+        return Fraction(*float(v).as_integer_ratio())
+    return f
+
+
+def swap_rule(betas, i, j, Li, Lj):
+    d = (betas[i] - betas[j]) * (Lj - Li)
+    return d, (1.0 if d >= 0 else math.exp(float(d)))
+
+
+def oracle_swaps(job, run, mismatches=None):
+    """Evaluate C08's exchange clauses on an oracle-mode run: the exchange rule with
+    L = posterior(current point), the hand-over with the received point's L
+    re-expressed at the receiving temperature, and (as before) the same two clauses
+    with L recovered from the chains' own stored values.  Returns a list of failure
+    strings.  `mismatches` (optional list) receives (global index of the uniform
+    draw, threshold from posterior(point), threshold the stored values give) for
+    every proposed pair where the two differ: the code then exchanges with the
+    wrong probability even if this particular draw did not show it."""
     bad = []
     N = job["N"]
     betas = [1 / Fraction(t) for t in job["temps"]]
+    logp = true_logp(job)
+    u_base = 0
     for k, sw in enumerate(run.get("swaps", [])):
         if "before" not in sw or "after" not in sw:
             continue
@@ -296,29 +397,51 @@ def oracle_swaps(job, run):
             bad.append(f"swap {k}: {len(us)} uniform draws for {len(pairs)} proposed pairs")
             continue
         touched = set()
-        for (i, j), u in zip(pairs, us):
+        for pi_, ((i, j), u) in enumerate(zip(pairs, us)):
             if i == j:
                 bad.append(f"swap {k}: pair ({i},{j}) of a chain with itself")
                 continue
-            Li, Lj = b[i][1] / betas[i], b[j][1] / betas[j]
-            d = (betas[i] - betas[j]) * (Lj - Li)
-            thr = 1.0 if d >= 0 else math.exp(float(d))
+            if not (0 <= i < N and 0 <= j < N):
+                continue
             accepted = sw["succ_delta"][i][j] == 1
             if sw["att_delta"][i][j] != 1:
                 bad.append(f"swap {k}: attempted_swaps[{i},{j}] changed by {sw['att_delta'][i][j]}")
+            # (1) the property with L = posterior(current point)
+            Li, Lj = logp(b[i][0]), logp(b[j][0])
+            d, thr = swap_rule(betas, i, j, Li, Lj)
+            first = all(n_ == 1 for (_, _, n_) in (b[i], b[j]))
             if d >= 0 or abs(float(u) - thr) > 1e-9 * max(float(u), thr):
                 want = (d >= 0) or (float(u) <= thr)
                 if want != accepted:
-                    bad.append(f"swap {k}: pair ({i},{j}) u={float(u):.6g} threshold exp({float(d):.6g})="
-                               f"{thr:.6g}: should be {'accepted' if want else 'rejected'}, was "
-                               f"{'accepted' if accepted else 'rejected'}")
+                    bad.append(f"swap {k}: pair ({i},{j}) T=({job['temps'][i]},{job['temps'][j]}) "
+                               f"L=posterior(point)=({float(Li):.6g},{float(Lj):.6g})"
+                               f"{' [start points, no step taken yet]' if first else ''} u={float(u):.6g} "
+                               f"threshold min(1,exp({float(d):.6g}))={thr:.6g}: should be "
+                               f"{'accepted' if want else 'rejected'}, was {'accepted' if accepted else 'rejected'}")
+            # (2) as before: the same rule with L recovered from the stored values
+            Lsi, Lsj = b[i][1] / betas[i], b[j][1] / betas[j]
+            ds, thrs = swap_rule(betas, i, j, Lsi, Lsj)
+            if ds >= 0 or abs(float(u) - thrs) > 1e-9 * max(float(u), thrs):
+                want = (ds >= 0) or (float(u) <= thrs)
+                if want != accepted:
+                    bad.append(f"swap {k}: pair ({i},{j}) u={float(u):.6g} threshold exp({float(ds):.6g})="
+                               f"{thrs:.6g} (from the stored values): should be "
+                               f"{'accepted' if want else 'rejected'}, was {'accepted' if accepted else 'rejected'}")
+            if mismatches is not None and thr != thrs:
+                mismatches.append({"uni_index": u_base + pi_, "swap": k, "pair": [i, j], "thr_true": thr,
+                                   "thr_stored": thrs, "stored": [str(b[i][1]), str(b[j][1])],
+                                   "beta_L": [str(betas[i] * Li), str(betas[j] * Lj)]})
             if accepted:
                 touched.update((i, j))
-                for x, y, Ly in ((i, j, Lj), (j, i, Li)):
+                for x, y, Ly, Lsy in ((i, j, Lj, Lsj), (j, i, Li, Lsi)):
                     if a[x][0] != b[y][0]:
                         bad.append(f"swap {k}: after the exchange chain {x} does not hold chain {y}'s point")
                     if a[x][1] != betas[x] * Ly:
-                        bad.append(f"swap {k}: chain {x} stores {a[x][1]} instead of beta_{x}*L_{y} = {betas[x] * Ly}")
+                        bad.append(f"swap {k}: chain {x} (T={job['temps'][x]}) now holds chain {y}'s point and stores "
+                                   f"{float(a[x][1]):.6g} instead of posterior(point)/T = {float(betas[x] * Ly):.6g}")
+                    if a[x][1] != betas[x] * Lsy:
+                        bad.append(f"swap {k}: chain {x} stores {a[x][1]} instead of beta_{x}*L_{y} = {betas[x] * Lsy}")
+        u_base += len(us)
         for x in range(N):
             if a[x][2] != b[x][2]:
                 bad.append(f"swap {k}: chain {x} changed length during a swap")
@@ -444,13 +567,14 @@ def replay_tapes(job, run):
 
 def coq_case_real(job, run):
     tapes = replay_tapes(job, run)
-    first = run["snaps"][0]
+    quad = C.clist([f"({q(a)}, {q(m)})" for a, m in job["quad"]])
     chains = []
     for i in range(job["N"]):
         beta = 1 / Fraction(job["temps"][i])
         tape = C.clist([f"({qpoint(p)}, {q(pr)})" for p, pr in tapes[i]])
-        h0 = f"({qpoint(first[i]['points'][0])}, {q(first[i]['probs'][0])})"
-        chains.append(f"mkChain {q(beta)} [{h0}] {tape} [] true")
+        # the chain as its CONSTRUCTOR leaves it (Model/TemperingStart.real_chain: one sample,
+        # the start point, stored value posterior(start) * inv_temp) -- not the observed first entry
+        chains.append(f"real_chain {q(beta)} {qpoint(job['starts'][i])} {tape} {quad}")
     return coq_case(job, run, chains, run["flat_calls"])
 
 
@@ -472,6 +596,46 @@ CODES = {1: "the model's run did not complete (fuel / blocked coordinator)",
          7: "two scheduling policies of the model disagree (contradicts the theorem)"}
 
 
+def first_is_swap(calls):
+    """The history reaches an exchange round before any chain has taken a step."""
+    for c in calls:
+        if c[0] == "swap":
+            return True
+        if c[0] in ("take_steps", "advance") and c[1] > 0:
+            return False            # advance() always steps before its first round
+    return False
+
+
+def targeted_draw(job, mism):
+    """Failing-input search: for the first proposed pair whose exchange probability
+    differs between L = posterior(point) and L recovered from the stored values,
+    replace the scripted uniform draw of that pair by one between the two
+    probabilities and run the configuration again (no delays).  Returns
+    (modified job, failures) or None."""
+    for m in mism[:4]:
+        lo, hi = sorted((m["thr_true"], m["thr_stored"]))
+        if not (hi > 0 and lo < 1):
+            continue
+        hi = min(hi, 1.0)
+        k = int(((lo + hi) / 2) * (1 << 40))
+        u = Fraction(k, 1 << 40)
+        if not (lo * (1 + 1e-6) < float(u) < hi * (1 - 1e-6) and 0 < u < 1):
+            continue
+        unis = list(job["unis"])
+        if m["uni_index"] >= len(unis):
+            continue
+        unis[m["uni_index"]] = str(u)
+        j2 = dict(job, unis=unis, runs=[["none", "oracle"]])
+        out = run_job(j2)
+        bad = []
+        for r_ in out["runs"]:
+            if r_["status"] == "ok":
+                bad += oracle_swaps(j2, r_)
+        if bad:
+            return j2, bad
+    return None
+
+
 # ---------------------------------------------------------------- the check
 def describe(job, pattern=None, mode=None):
     d = {k: job[k] for k in job if k not in ("runs",)}
@@ -487,6 +651,14 @@ def run(rep: C.Report, tier: str) -> int:
     warnings.simplefilter("ignore")
     C.clean_gen(PROP)
     C.prove_and_audit(rep, PROP, THEOREMS)
+    try:
+        info = C.coq_audit(PROP + "_start", START_THEOREMS, "IT.Properties.C08Start")
+        rep.obligation(True, len(START_THEOREMS))
+        rep.coverage["start_history_audit"] = info
+    except C.ProofFailure as e:
+        rep.obligation(False, len(START_THEOREMS))
+        rep.violation("C08/proof", f"proof obligation no longer checks: {e.what}",
+                      {"theorem_or_correspondence": e.what, "log": e.log[-1500:]}, False)
     jobs = gen_jobs(tier)
     t0 = time.time()
     with ThreadPoolExecutor(max_workers=12) as ex:
@@ -509,6 +681,11 @@ def run(rep: C.Report, tier: str) -> int:
         n_runs += len(ok_runs)
         rep.count(f"kind={job['kind']}")
         rep.count(f"N={job['N']}")
+        rep.count("first call=" + ("swap (no step taken yet)" if first_is_swap(job["calls"]) else "steps"))
+        if job["kind"] != "stub":
+            rep.count(f"ladder={job.get('ladder')}" + ("" if Fraction(job["temps"][0]) == 1 else " (no T=1 chain)"))
+            if job.get("first") == "swap":
+                rep.count(f"swap-first: {job['kind']}, starts={job.get('starts_kind')}")
         rep.count(f"swap_interval={job.get('swap_interval')}" if job.get("swap_interval", 0) <= 10
                   else "swap_interval>n")
         rep.count(f"display_progress={job['display_progress']}")
@@ -538,10 +715,24 @@ def run(rep: C.Report, tier: str) -> int:
 
         # 2. the property itself on every run
         prop_bad = []
+        mism = []
         for r_ in ok_runs:
-            b = oracle_counts(job, r_) + (oracle_swaps(job, r_) if r_["mode"] == "oracle" else [])
+            mm = []
+            b = oracle_counts(job, r_) + (oracle_swaps(job, r_, mm) if r_["mode"] == "oracle" else [])
             if b:
                 prop_bad.append((r_, b))
+            if mm and not mism:
+                mism = mm
+        if mism and not prop_bad:
+            # the stored values entering a round give another exchange probability than
+            # posterior(point) does, but the scripted draw did not fall between the two:
+            # place the draw between them and run again (failing-input search)
+            found = targeted_draw(job, mism)
+            if found is not None:
+                j2, b = found
+                rep.count("failing input found by a targeted uniform draw")
+                rep.violation("C08/property", "; ".join(b[:3]), {"case": describe(j2), "failures": b[:10]}, True)
+                continue
         # 3. schedule independence, observed
         by_mode = {}
         for r_ in ok_runs:
@@ -603,7 +794,7 @@ def run(rep: C.Report, tier: str) -> int:
         chunk = coq_cases[i:i + CH]
         body = "Definition cases : list pt_case :=\n " + C.clist([t for _, t in chunk], ";\n ") + "."
         files.append(C.write_case_file(PROP, f"cases_{i // CH}", HEADER, body,
-                                       ["failing cases", "map check_case cases"]))
+                                       ["failing cases", "map check_case cases", "map check_pure cases"]))
         index.append([k for k, _ in chunk])
     body = ("Definition tcases : list (nat * list nat * list nat * list pair) :=\n " +
             C.clist(pair_t, ";\n ") + ".\n" +
@@ -642,6 +833,17 @@ def run(rep: C.Report, tier: str) -> int:
                 rep.count("skipped: model undecided (exp gap)")
                 continue
             suspicious[idx[j]] = CODES.get(code, f"code {code}")
+        # the pure sequential model of the same history (Model/TemperingStart.pure_session)
+        if 2 not in res or len(res[2]) != len(idx):
+            rep.obligation(False)
+            rep.violation("C08/correspondence-run", f"case file {p.name}: check_pure did not evaluate",
+                          {"theorem_or_correspondence": f"correspondence file {p.name}", "log": log[-1500:]}, False)
+            continue
+        rep.obligation(True)
+        for j, code in enumerate(res[2]):
+            if code in (0, 3):
+                continue
+            suspicious.setdefault(idx[j], "pure sequential model (pure_session): " + CODES.get(code, f"code {code}"))
     rep.coverage["traces_validated_against_impl"] = n_checked
     rep.coverage["implementation_runs"] = n_runs
     rep.coverage["pairing_cases"] = len(pair_t) + len(pair_u)
@@ -673,8 +875,12 @@ def run(rep: C.Report, tier: str) -> int:
         "each multiprocessing Pipe connection is FIFO and loss-free, Event.set() is eventually seen by poll loops, "
         "and a worker only ever touches its own chain: this is what makes a real execution a schedule of the model "
         "(step relation of Model/Tempering.v); the OS / multiprocessing layer itself is not modelled further",
-        "real GibbsChain / HamiltonianChain steps enter the model as observed tapes (their dynamics are C01/C03's); "
-        "the stub chain's step function is modelled exactly",
+        "real MetropolisChain / GibbsChain / PcaChain / HamiltonianChain steps enter the model as observed tapes "
+        "(their dynamics are C01/C03's); their CONSTRUCTION is modelled (TemperingStart.real_chain: one sample, "
+        "stored value posterior(start) * inv_temp); the stub chain's step function is modelled exactly",
+        "C08_history_good is about the pure sequential effect of a history (pure_session); it is tied to the code by "
+        "check_pure on every generated history, and to the process system by evaluation on the same histories "
+        "(both must reproduce the observed chains), not by a general simulation theorem",
         "accept decisions use rational bounds on exp (Common/ExpBounds.decide_accept); draws closer than 1e-9 to a "
         "threshold (relative) are skipped (none expected)",
         "temperatures are powers of two and all stub values dyadic, so the code's float arithmetic is exact",
@@ -682,7 +888,7 @@ def run(rep: C.Report, tier: str) -> int:
     return rep.finish(
         level="proof",
         checker_cmd="make -C /verif/coq (coqc 8.16.1, full .vo) + coqc on coq/gen/C08/*.v (vm_compute)",
-        trusted_base=C.KERNEL_TB + ["axioms: none for all C08 theorems (closed under the global context) except "
+        trusted_base=C.KERNEL_TB + ["axioms: none for all C08 and C08Start theorems (closed under the global context) except "
                                     "C08_swap_prob_real, which speaks about Coq's real exp and uses the standard "
                                     "library's ClassicalDedekindReals.sig_forall_dec / sig_not_dec, "
                                     "functional_extensionality_dep and Classical_Prop.classic",
@@ -690,8 +896,12 @@ def run(rep: C.Report, tier: str) -> int:
         rule="real ParallelTempering (fork, pipes) x N in 1..6 x swap_interval in {1,3,10,>n} (+ >50 cycles) x "
              "display_progress in {True,False} x call shapes (advance / take_steps+swap+advance / two advances / "
              "manual swaps) x 7 delay patterns (none, hot-slow, cold-slow, alternating, straggler, zigzag, random; "
-             "0-30 ms per step) + an oracle-instrumented run; stub chains (exact model) and real Gibbs/HMC chains "
-             "with scripted RNGs (observed tapes); plus the pairing routines alone for N in 0..12 and advance plans; "
+             "0-30 ms per step) + an oracle-instrumented run; stub chains (exact model) and real "
+             "Metropolis/Gibbs/PCA/HMC chains with scripted RNGs (constructor modelled, steps as observed tapes) on "
+             "ladders 2^i, 4^i, 2^(i+1), irregular powers of two; 12 histories per repetition that BEGIN with swap() "
+             "on freshly constructed chains (every class, N in 1..6, start points random / hotter-is-better / "
+             "colder-is-better; shapes swap,return,steps,swap,advance / swap,swap,advance / take_steps(0),swap,...); "
+             "plus the pairing routines alone for N in 0..12 and advance plans; "
              "non-trivial = at least 2 chains; distinct = distinct (kind, N, calls, temperatures, seed)")
 
 
